@@ -143,7 +143,13 @@ func AppendFloat(b []byte, f float64, prec int) []byte {
 		prec = 17 // maximum number of significant digits in double
 	}
 	prec -= float64exp(f) // number of digits in front of the dot
-	f *= math.Pow10(prec)
+	if 308 < prec {
+		// math.Pow10 is infinite above 1e308
+		f *= 1e308
+		f *= math.Pow10(prec - 308)
+	} else {
+		f *= math.Pow10(prec)
+	}
 
 	// calculate mantissa and exponent
 	mant := int64(f)
